@@ -389,6 +389,7 @@ static int count_shm(void)
 	return n;
 }
 static int fds_at_start = -1;
+static int shm_at_start = 0;    /* residue of an earlier (crashed) process that happened to have our pid */
 
 static void reset_case(void)
 {
@@ -431,7 +432,7 @@ static void do_end(void)
 		}
 		for (guard = 0; guard < 8 && njobs > 0; guard++) run_jobs();
 	}
-	printf("r alive=%d shm_left=%d fds_delta=%d stale=%d\n", alive_conns(), count_shm(), count_fds() - fds_at_start, stale_mod);
+	printf("r alive=%d shm_left=%d fds_delta=%d stale=%d\n", alive_conns(), count_shm() - shm_at_start, count_fds() - fds_at_start, stale_mod);
 	reset_case();
 }
 
@@ -520,6 +521,7 @@ int main(void)
 	qb_log_init("h_ipclife", LOG_USER, LOG_EMERG);
 	qb_log_ctl(QB_LOG_SYSLOG, QB_LOG_CONF_ENABLED, QB_FALSE);
 	fds_at_start = count_fds();
+	shm_at_start = count_shm();
 	reset_case();
 	while (fgets(line, sizeof line, stdin)) {
 		char *p = line;
